@@ -21,7 +21,7 @@ TESTED_NOT_PROVED = ["which regions survive the cut-off is proved for the model 
                      "scipy's diagram; 'all cells in the same rotational sense' is proved over the reals for the rule of the model "
                      "(C19_stored_cycles_share_one_sense: sign taken on the doubled vertex list, reversal when positive) and re-checked on the "
                      "implementation by the oracle"]
-IMPORTS = "From Forsys Require Import Model.Num Model.CaseUtil Model.PyList Model.Geometry Model.Tessellation Model.RegionFilter.\n"
+IMPORTS = "From Forsys Require Import Model.Num Model.CaseUtil Model.PyList Model.Geometry Model.Tessellation Model.RegionFilter Model.Round.\n"
 
 
 def kept_regions(centres, max_distance, raw=False):
@@ -95,6 +95,37 @@ def region_filter_case(res, centres, max_distance, exprs, replay):
     res.count("region filter correspondence" + (" (cut-off active)" if len(kept) < len(regs) else ""))
 
 
+def corner_point_case(res, rawreg, els, exprs, replay):
+    """Model/Round.v ridge_vertex (Python round, numpy around and the line through the rounded ends, all in binary64) against the two lattice
+    points create_lattice_elements made for every ridge of every kept region, bit for bit - rounding ties and near-degenerate corners included"""
+    if sum(1 for _, rp_ in exprs if isinstance(rp_, dict) and rp_.get("what") == "corner points") >= 10:
+        return
+    verts, edges, cells = els
+    bykey = {abs(int(k)): k for k in cells}
+    items = []
+    for k, reg in enumerate(rawreg):
+        key = bykey.get(k + 1)
+        if key is None or len(cells[key]) != len(reg):
+            continue
+        for i in range(len(reg)):
+            en = int(cells[key][i])
+            a, b = edges[abs(en)]
+            if en < 0:
+                a, b = b, a
+            p, q = reg[i], reg[(i + 1) % len(reg)]
+            pa, pb = verts[a], verts[b]
+            items.append(f"(({C.flit(p[0])}, {C.flit(p[1])}), ({C.flit(q[0])}, {C.flit(q[1])}), (({C.flit(pa[0])}, {C.flit(pa[1])}), ({C.flit(pb[0])}, {C.flit(pb[1])})))")
+            if len(items) >= 600:
+                break
+        if len(items) >= 600:
+            break
+    if not items:
+        return
+    exprs.append(("forallb ridge_ok [" + "; ".join(items) + "]", dict(replay, what="corner points")))
+    res.count("corner point correspondence")
+    res.count("corner point correspondence: ridges", len(items))
+
+
 def check_set(res, centres, max_distance, exprs, label):
     replay = {"centres": [list(map(float, c)) for c in centres], "max_distance": max_distance, "label": label}
     region_filter_case(res, centres, max_distance, exprs, replay)
@@ -155,6 +186,7 @@ def check_set(res, centres, max_distance, exprs, label):
     for b in bad[:3]:
         res.fail("oracle", b, replay)
     res.sample({"label": label, "centres": len(centres), "max_distance": max_distance, "cells": len(c), "edges": len(e)})
+    corner_point_case(res, rawreg, els, exprs, replay)
     if tie:
         return
     # correspondence
@@ -206,6 +238,7 @@ def run(res, tier, seed):
         res.traces += 1
         if b is not True:
             res.fail("correspondence", ("model != implementation (regions left after the distance cut-off, Model/RegionFilter.v)" if isinstance(rp, dict) and rp.get("what") == "region filter"
+                                        else "model != implementation (lattice point of a corner, Model/Round.v ridge_vertex)" if isinstance(rp, dict) and rp.get("what") == "corner points"
                                         else "model != implementation (lattice elements)") if b is False else "case did not evaluate",
                      {"correspondence": "Model/Tessellation.v vs tessellation.create_lattice_elements / create_lattice", "case": rp})
 
